@@ -2,7 +2,7 @@
 """Write harness/overlay/overlay.json: every file under harness/overlay/<rel>/ is injected into /repo/<rel>/
 at build time (go build -overlay), so /repo itself carries no hook files."""
 import json, os
-root = '/verif/harness/overlay'
+root = os.path.join(os.path.dirname(os.path.dirname(os.path.abspath(__file__))), 'harness', 'overlay')
 rep = {}
 for d, _, fs in os.walk(root):
     for f in fs:
